@@ -407,8 +407,8 @@ def wl_C09(tier, rng):
         elif cls == "und":
             ops += ["todirected 0 1", "ofdirected 1 2", "eq 0 2", "eq 2 0", "reversed 1 3", "eq 1 3"]
         ops += ["copy 0 6", "eq 0 6", "assign 0 7", "eq 7 0"]
-        # edge-list constructor vs one-at-a-time (not available for weighted classes in the main harness)
-        if cls not in WEIGHTED:
+        # edge-list constructor vs one-at-a-time
+        if True:
             cont = rng.choice(["vector", "list", "deque", "flist"])
             trip = []
             for idx, (i, j) in enumerate(es):
